@@ -91,7 +91,7 @@ void conc_thread(void *arg) {
         if (o.b == 1) { // the snapshot also fixes what an iterator sees
           std::vector<std::pair<string, string>> rows;
           int rc = db_scan(C.db, &rows, s, cfg.verify);
-          rows.erase(std::remove_if(rows.begin(), rows.end(), [](const std::pair<string, string> &kv) { return kv.first.compare(0, 5, "zpad/") == 0; }), rows.end());
+          rows.erase(std::remove_if(rows.begin(), rows.end(), [](const std::pair<string, string> &kv) { return kv.first.compare(0, 5, "zpad/") == 0 || kv.first == "b-pad"; }), rows.end());
           if (rc != LDB_OK) h.rc = rc;
           else if (rows != h.rows) violation("C06", "snapshot_get_vs_iter", "thread %d: gets and a scan through one snapshot disagree (%zu vs %zu entries)", tid, h.rows.size(), rows.size());
         }
@@ -125,7 +125,7 @@ void conc_thread(void *arg) {
         ldb_iter_t *it = ldb_iterator(C.db, &ro);
         h.ret = sim::step();
         h.scan = true;
-        auto is_pad = [](const string &k) { return k.compare(0, 5, "zpad/") == 0; };
+        auto is_pad = [](const string &k) { return k.compare(0, 5, "zpad/") == 0 || k == "b-pad"; };
         for (ldb_iter_first(it); ldb_iter_valid(it); ldb_iter_next(it)) { string k = str_of(ldb_iter_key(it)); if (!is_pad(k)) h.rows.push_back({k, str_of(ldb_iter_value(it))}); }
         h.rc = ldb_iter_status(it);
         if (o.b == 1 && h.rc == LDB_OK) {
@@ -415,6 +415,22 @@ Plan gen_conc(uint64_t seed, const string &prop) {
       }
       p.ops.push_back(o);
     }
+  // staged "gap" layout (a quarter of the C14/C06/C01-family runs): two level-0 files and two level-1 files that leave
+  // a key gap between them; one thread compacts level 0 while another one writes a gap key with a value that fills the
+  // write buffer, so that a memtable holding only gap keys is flushed in the middle of that compaction
+  if ((prop == "C14" || prop == "C06" || prop == "C07" || prop == "C08") && nsingle >= 4 && r.chance(prop == "C14" ? 0.5 : 0.2)) {
+    p.seti("stage_gap", 1);
+    p.seti("prefill", 0); p.seti("l0_files", 0);
+    p.cfg.wbs = 65536;
+    int lo = 0, hi = nsingle - 1, gap = (int)r.range(1, nsingle - 2);
+    p.seti("gap_lo", lo); p.seti("gap_hi", hi);
+    std::vector<Op> front;
+    { Op o; o.tid = 0; o.kind = O_COMPACT_RANGE; o.a = 0; front.push_back(o); }
+    { Op o; o.tid = 1 % nthreads; o.kind = O_PUT; o.key = "c" + std::to_string(gap); o.tag = tag++; o.len = (uint32_t)r.range(66000, 80000); o.fill = 1; front.push_back(o); }
+    { Op o; o.tid = 1 % nthreads; o.kind = O_PUT; o.key = "c" + std::to_string(gap); o.tag = tag++; o.len = 20; front.push_back(o); }
+    { Op o; o.tid = 1 % nthreads; o.kind = O_SNAP; o.b = 0; front.push_back(o); }
+    p.ops.insert(p.ops.begin(), front.begin(), front.end());
+  }
   if (g_light && p.ops.size() > 400) p.ops.resize(400);
   p.sc.max_steps = 30000000ULL;
   return p;
@@ -444,6 +460,21 @@ void exec_conc(const Plan &p, RunOut *out) {
         Upd u; u.key = "zpad/" + std::to_string(f % 3); u.tag = ptag++; u.len = 64;
         db_write(C.db, {u}, 0);
         ldb_test_compact_memtable(C.db);
+      }
+      if (p.geti("stage_gap", 0)) {
+        // pad key spanning the whole key space goes to a deep level; then each anchor key is flushed twice, which leaves
+        // one file per anchor in level 1 and one in level 0 (the second flush overlaps the first)
+        string klo = "c" + std::to_string(p.geti("gap_lo", 0)), khi = "c" + std::to_string(p.geti("gap_hi", 3));
+        auto putflush = [&](std::vector<string> ks) {
+          std::vector<Upd> ups; for (auto &k : ks) { Upd u; u.key = k; u.tag = ptag++; u.len = 40; ups.push_back(u); }
+          HOp h; h.tid = 0; h.kind = O_WRITE; h.ups = ups; h.inv = sim::step(); h.rc = db_write(C.db, ups, 0); h.ret = sim::step();
+          prefill.push_back(h); // part of the history: these writes happen before every thread starts
+          ldb_test_compact_memtable(C.db);
+        };
+        putflush({"b-pad", "zpad/0"});
+        for (int rep = 0; rep < 2; rep++) { putflush({klo}); putflush({khi}); }
+        sim::drain();
+        probe("staged_gap_layouts");
       }
       for (long b = 0; b < brink;) { Upd u; u.key = "zpad/" + std::to_string(ptag % 7); u.tag = ptag++; u.len = 3000; db_write(C.db, {u}, 0); b += 3100; }
       std::vector<int> tids;
